@@ -729,14 +729,17 @@ class TensorDiagram:
         if len(free_source) == 0 or len(free_target) == 0:
             raise TensorComputationError("Could not add the edge because no indices are left.")
 
-        # Third step: Pick some free indices
-        i = free_source.pop(0)
-        j = free_target.pop(0)
+        # Third step: Pick some free indices (a refused edge must leave them unused)
+        i = free_source[0]
+        j = free_target[0]
 
         if source.shape[i] != target.shape[j]:
             raise TensorComputationError(
                 f"Dimension of tensors is inconsistent, encountered dimensions {source.shape[i]} and {target.shape[j]}."
             )
+
+        free_source.pop(0)
+        free_target.pop(0)
 
         self._contraction_list.append((source_index, target_index, i, j))
 
